@@ -10,6 +10,7 @@ package world
 import (
 	"fmt"
 	"io"
+	"net"
 	"net/http"
 	"os"
 	"sort"
@@ -43,6 +44,10 @@ type Resp struct {
 	Err    bool              `json:"err,omitempty"` // transport error instead of a response
 	// CutAt > 0: the connection breaks after that many body bytes (the read returns an error)
 	CutAt int `json:"cut_at,omitempty"`
+	// CutErr: how it breaks: "" = connection reset; "timeout" = the server goes silent and the read deadline /
+	// client timeout fires (a net.Error with Timeout() and Temporary() true, returned by every further read,
+	// as net/http and net.Conn do); "eof" = unexpected EOF
+	CutErr string `json:"cut_err,omitempty"`
 	// Gzip: the response is gzip-encoded and larger than the decoder's read-ahead. The WARC client hands
 	// Zeno a decoding reader whose Close does not close the connection underneath (gzip.Reader.Close never
 	// does): only reading to EOF lets the connection, its recorder and the feedback signal complete.
@@ -70,8 +75,8 @@ type Fetch struct {
 	Accept  bool // the real discard hook chain accepts the response (what the writer acts on)
 	// Policy: the discard policy as the operator states it accepts the response - status not in
 	// --warc-discard-status and not a Cloudflare challenge page - computed without Zeno's hook chain
-	Policy bool
-	Written int  // scheduler step at which the fake WARC writer "wrote" it (-1 = not written)
+	Policy  bool
+	Written int // scheduler step at which the fake WARC writer "wrote" it (-1 = not written)
 	// BodyLen is what the origin sent, BodyRead what the crawler had read when it closed the body:
 	// the WARC library records the bytes that crossed the connection, so an unread tail is lost.
 	BodyLen, BodyRead int
@@ -91,23 +96,23 @@ type Msg struct {
 
 // Options configure one world.
 type Options struct {
-	Workers             int
-	MaxConcurrentAssets int
-	MaxRetry            int
-	MaxRedirect         int
-	MaxHops             int
-	DisableAssets       bool
-	RateLimit           bool
-	ExcludeHosts        []string
-	DiscardStatus       []int
-	IncludeHosts        []string // --include-host
-	DisableLocalDedupe  bool // --disable-local-dedupe (a WARC writer option: identical payloads are not written as revisits)
-	Tmp                 string // scratch directory (seencheck store)
-	LocalSeencheck      bool   // real LevelDB store (slow); default: crawl HQ seencheck against an in-memory fake HQ
-	NoSeencheck         bool   // --disable-seencheck with the local queue (no store is started, as in startPipeline)
-	Proxy               bool   // --proxy set: only the proxied client exists, as in startWARCWriter
-	AsyncWARC           bool   // --async-warc-write: no feedback channel
-	SlowWrites          bool   // every WARC write may (as an environment deviation, cost F) take 5 virtual minutes
+	Workers              int
+	MaxConcurrentAssets  int
+	MaxRetry             int
+	MaxRedirect          int
+	MaxHops              int
+	DisableAssets        bool
+	RateLimit            bool
+	ExcludeHosts         []string
+	DiscardStatus        []int
+	IncludeHosts         []string // --include-host
+	DisableLocalDedupe   bool     // --disable-local-dedupe (a WARC writer option: identical payloads are not written as revisits)
+	Tmp                  string   // scratch directory (seencheck store)
+	LocalSeencheck       bool     // real LevelDB store (slow); default: crawl HQ seencheck against an in-memory fake HQ
+	NoSeencheck          bool     // --disable-seencheck with the local queue (no store is started, as in startPipeline)
+	Proxy                bool     // --proxy set: only the proxied client exists, as in startWARCWriter
+	AsyncWARC            bool     // --async-warc-write: no feedback channel
+	SlowWrites           bool     // every WARC write may (as an environment deviation, cost F) take 5 virtual minutes
 	DomainsCrawlPatterns []string // --domains-crawl
 }
 
@@ -123,7 +128,7 @@ type World struct {
 	Produced   []Msg
 	ConnLeaked int // connections left open for good (see Resp.Gzip)
 	// Feeders: the harness threads that play the source's consumer side (they call Insert); Stop waits for them
-	Feeders sync.WaitGroup
+	Feeders    sync.WaitGroup
 	BodiesOpen int
 
 	ReactorOut, PreOut, ArchOut, PostOut chan *models.Item
@@ -180,9 +185,9 @@ func New(opt Options, site Site) *World {
 		ExcludeHosts:      append([]string{"archive.org", "archive-it.org"}, opt.ExcludeHosts...),
 		IncludeHosts:      opt.IncludeHosts,
 		WARCDiscardStatus: opt.DiscardStatus, DisableLocalDedupe: opt.DisableLocalDedupe,
-		DomainsCrawl:      opt.DomainsCrawlPatterns,
-		WARCTempDir:       w.seenDir + "/temp",
-		HTTPReadDeadline:  int(60 * time.Second),
+		DomainsCrawl:     opt.DomainsCrawlPatterns,
+		WARCTempDir:      w.seenDir + "/temp",
+		HTTPReadDeadline: int(60 * time.Second),
 	}
 	if opt.DiscardStatus == nil {
 		cfg.WARCDiscardStatus = []int{429}
@@ -424,20 +429,41 @@ func (t *transport) RoundTrip(req *http.Request) (*http.Response, error) {
 	w.mu.Unlock()
 	var rd io.Reader = strings.NewReader(r.Body)
 	if r.CutAt > 0 {
-		rd = &cutReader{r: rd, left: r.CutAt}
+		rd = &cutReader{r: rd, left: r.CutAt, kind: r.CutErr, url: f.URL}
 	}
 	resp.Body = &body{r: rd, w: w, f: f, fb: fb, gzip: r.Gzip}
 	return resp, nil
 }
 
-// cutReader delivers `left` bytes and then fails like a reset connection.
+// cutReader delivers `left` bytes and then fails for good: every further read returns the same error.
 type cutReader struct {
-	r    io.Reader
-	left int
+	r     io.Reader
+	left  int
+	kind  string
+	url   string
+	after int // reads after the failure
 }
+
+// timeoutError is what a fired read deadline or client timeout looks like to the reader of a body.
+type timeoutError struct{}
+
+func (timeoutError) Error() string   { return "read tcp: i/o timeout" }
+func (timeoutError) Timeout() bool   { return true }
+func (timeoutError) Temporary() bool { return true }
 
 func (c *cutReader) Read(p []byte) (int, error) {
 	if c.left <= 0 {
+		c.after++
+		if c.after > 100 {
+			// a reader that keeps asking a dead connection never ends (and never yields to the scheduler): livelock
+			panic(fmt.Sprintf("spin: the body of %s was read %d times after it had failed for good", c.url, c.after))
+		}
+		switch c.kind {
+		case "timeout":
+			return 0, &net.OpError{Op: "read", Net: "tcp", Err: timeoutError{}}
+		case "eof":
+			return 0, io.ErrUnexpectedEOF
+		}
 		return 0, fmt.Errorf("read tcp: connection reset by peer")
 	}
 	if len(p) > c.left {
